@@ -96,6 +96,10 @@ def file_for(kind, flavour):
         f.vars['M_pack'].data = f.vars['M_pack'].data * 0.5 + 10.
         f.vars['M_pack'].attrs['scale_factor'] = 0.5
         f.vars['M_pack'].attrs['add_offset'] = 10.
+        # ... and one that is only shifted (add_offset without a scale_factor)
+        mv('M_off', 'f8', ('t', 'x'), (2, 3), 'fill_value', -999., 3)
+        f.vars['M_off'].data = f.vars['M_off'].data + 273.
+        f.vars['M_off'].attrs['add_offset'] = 273.
         f.vars['plain'] = RVar(('x',), ramp('f4', (3,), 5), attrs={'units': 'm'})
         f.attrs['title'] = 'masked'
     elif kind == 'attrs':
